@@ -1,4 +1,5 @@
 import Gv.Model.Fmt.Common
+import Gv.Model.Fmt.Utf8
 import Gv.Model.Fmt.Phylip
 /-!
 Model of `io/nexus/{nexus_lexer,nexus_parser,writer}.go` as the code is.
@@ -436,6 +437,12 @@ def toOutcome {α} : R α → Outcome α
 
 /-- `nexus.NewParser(r).IgnoreIdentical(i).Alphabet(a).Parse()` -/
 def parse (f : Facts) (o : POpts) (bs : Seq) : Outcome Aln := toOutcome (parseR f o bs)
+
+/-- `Parse()` on the raw input, ALL byte strings; `none` = no claim (the input holds U+0131 / U+017F, which
+`strings.ToUpper` maps to `I` / `S` in the keyword test).  `len(lit) != 1` for the GAP / MISSING / MATCHCHAR characters is a
+BYTE length of the written literal: only an ASCII character passes, so `[]rune(lit)[0]` is that byte. -/
+def parseBytes (f : Facts) (o : POpts) (bs : Seq) : Option (Outcome Aln) :=
+  if Utf8.hasFoldRune bs then none else some (parse f o (Utf8.norm bs))
 
 /-! ### writer -/
 
